@@ -338,7 +338,10 @@ def mutate_live(region, rng):
     p = rng.choice(choices)
     if p == 'meta':
         inc = not bool(dict.get(region.meta, 'include', True))
-        region.meta = RegionMeta({'include': inc})
+        if rng.random() < 0.5:
+            region.meta['include'] = inc          # edited in place ...
+            return f'meta[include]={inc} in place'
+        region.meta = RegionMeta({'include': inc})      # ... or replaced
         return f'meta include={inc}'
     v = getattr(region, p)
     if isinstance(v, PixCoord):
